@@ -15,6 +15,7 @@ TABLE = [  # (commit, checks expected to fire, what)
     ("25f7ee1f+0ecc585d", ["C03"], "heavy N3LO splines from finite rows (+ scalar return built on it)"), ("aba9f4d3", ["C16"], "replace_nans_with_0 name test"),
     ("628c815a", ["C18"], "fl_cc loc args"), ("93283357", ["C08"], "missing asy weights"), ("d8ec27c4", ["C08"], "FL Adler"), ("dd5ce457", ["C01"], "threshold kink break point"),
     ("a6db27f7", ["C14"], "SF cache keyed by named kinematics"),
+    ("a6f856d5", ["C15"], "load_tar without runcards"), ("b72c99b1", ["C15"], "numpy objects in dumped cards"),
 ]
 tier = sys.argv[1] if len(sys.argv) > 1 else "quick"
 only = sys.argv[2:]
